@@ -138,10 +138,14 @@ def stream_cases(rep, tier, seed):
                 ids = [int(v) for v in np.asarray(data)[:, 0]] if verdict == "accept" else None
                 got[ext] = (verdict, None if X is None else np.asarray(X, dtype=float).tolist(), None if Y is None else [int(v) for v in Y], ids)
                 # the same file through Subgraph(from_file=...)
-                if verdict == "accept":
-                    sg = Subgraph(from_file=out)
-                    feats = [[float(v) for v in nd.features] for nd in sg.nodes]
-                    labs = [int(nd.label) for nd in sg.nodes]
+                if verdict == "accept" and accept:
+                    try:
+                        sg = Subgraph(from_file=out)
+                        feats = [[float(v) for v in nd.features] for nd in sg.nodes]
+                        labs = [int(nd.label) for nd in sg.nodes]
+                    except Exception as ex:
+                        rep.violation("Subgraph(from_file)", "subgraph_from_file_raised_on_a_valid_dataset", ext, dict(rp, ext=ext, exception=type(ex).__name__))
+                        feats, labs = got[ext][1], got[ext][2]
                     if feats != got[ext][1] or labs != got[ext][2]:
                         rep.violation("Subgraph(from_file)", "subgraph_from_file_differs_from_load_and_parse", ext, dict(rp, ext=ext))
             except Exception as ex:
@@ -171,6 +175,21 @@ def stream_cases(rep, tier, seed):
             rep.sample({"dataset": recs, "expected_labels": shifted, "accept": accept})
     rep.cov["datasets_converted_loaded_parsed"] = n_ok
     rep.count("traces_validated_against_impl", n_ok)
+    # label columns a text file can hold but the binary format cannot: Stream's acceptance rule (the label set IS 0, 1, ..., max)
+    # applied to fractional and negative columns handed to parse_loader as loaded arrays
+    direct = 0
+    for col in ([0, 0.5, 1], [0.5, 1.5], [0, 1, 1.5], [-1, 0, 1], [-1], [-2, -1], [0, 0.25], [0, 1, 2], [1, 0, 0, 1], [0], [2, 0, 1, 1], [1, 2], [0, 2], [0.0, 1.0]):
+        want = "accept" if set(col) == set(range(int(max(col)) + 1)) and all(float(v).is_integer() for v in col) else "reject"
+        data = np.array([[i + 1, v, 0.5 * i, 1.0] for i, v in enumerate(col)], dtype=float)
+        try:
+            X, Y = ps.parse_loader(data.copy())
+            verdict = "accept" if X is not None else "none"
+        except Exception as ex:
+            verdict = "reject" if isinstance(ex, oe.ValueError) else "raised:%s" % type(ex).__name__
+        direct += 1
+        if verdict != want:
+            rep.violation("parse_loader", "non_sequential_labels_not_rejected" if want == "reject" else "valid_dataset_rejected", "array", {"label_column": col, "outcome": verdict})
+    rep.cov["label_columns_parsed_directly"] = direct
 
 
 def run(tier, seed):
@@ -190,7 +209,7 @@ def run(tier, seed):
         for clause in B["__set__"]:
             rep.violation("splitter", clause, "n=%d p=%d/%d" % (metas[tid - 1]["n"], metas[tid - 1]["num"], metas[tid - 1]["den"]) if "size" in clause else "split", {"case": metas[tid - 1], "observed": traces[tid - 1]})
     stream_cases(rep, tier, seed)
-    rep.cov["rule"] = "split/split_with_index/merge on random datasets (duplicates included), dyadic percentages, repeated seeds, judged by TLC on interned (features,label) pairs; every dataset TLC enumerates from Stream.tla (<=3 samples, 1..2 float32-exact features scaled by 1 / 2^-12 / 2^-40 / 2^-100, labels 1..3 incl. non-sequential sets, distinct ids) packed per the spec's layout and pushed through opf2txt/csv/json -> load_* -> parse_loader and Subgraph(from_file)"
+    rep.cov["rule"] = "split/split_with_index/merge on random datasets (duplicates included), dyadic percentages, repeated seeds, judged by TLC on interned (features,label) pairs; every dataset TLC enumerates from Stream.tla (<=3 samples, 1..2 float32-exact features scaled by 1 / 2^-12 / 2^-40 / 2^-100, stored labels 0..3 incl. non-sequential sets and the 0-based file whose parsed labels start at -1, distinct ids) packed per the spec's layout and pushed through opf2txt/csv/json -> load_* -> parse_loader and Subgraph(from_file)"
     rep.assumptions = ["TLC", "dyadic percentages make int(n*p) the mathematical floor", "encode/decode fidelity is checked by enumeration of small cases, not proved"]
     return rep.finish()
 
